@@ -170,6 +170,8 @@ def _forward_ref(repo, ob, failure):
         (['<rect id="d" xy="#a|h" wh="4"/>', '<rect xy="#d|v" wh="2"/>', '<rect id="a" xy="10" wh="4"/>'], [2, 0, 1]),
         (['<use id="t" href="#b" xy="30 40"/>', '<rect id="b" wh="10"/>', '<rect id="s" xy="#t|h 2" wh="4"/>'], [1, 0, 2]),
         (['<use id="t" href="#b" xy="30 40"/>', '<rect id="s" cxy="#t@c" wh="4"/>', '<rect id="b" wh="10"/>'], [2, 0, 1]),
+        (['<rect id="d" xy="#a|h" wh="4"/>', '<rect id="s" cxy="#d@c" wh="2"/>', '<rect id="a" xy="10" wh="4"/>'], [2, 0, 1]),
+        (['<rect id="d" xy="#a|h" wh="4"/>', '<rect id="s" xy="1 2" width="#d" height="#d 50%"/>', '<rect id="a" xy="10" wh="4"/>'], [2, 0, 1]),
     ]
 
     def geom(out):
